@@ -432,6 +432,9 @@ fn graph_case(r: &mut Rng, acc: &mut Acc) {
             return;
         }
     }
+    if acc.cur_case % 20_011 == 0 {
+        acc.sample(Json::s(format!("graph history: {}", g.log.join("; "))));
+    }
     // ---- finally unwind the operand stack through the store itself
     let mut popped = vec![];
     while let Ok(Some(a)) = g.d.pop_register() {
